@@ -63,6 +63,10 @@ func vfHangScenarios() []vfScenario {
 	add("down-archive", vfCfg{Dir: "down", Directory: true}, []string{"d"}, dir)
 	add("up-archive", vfCfg{Dir: "up", Directory: true}, []string{"d"}, dir)
 	add("up-dir-y", vfCfg{Dir: "up", Directory: true, Overwrite: true}, []string{"d"}, dir)
+	// a first file that fits into one data block: its only block is also its last
+	tiny := []vfFileSpec{{Rel: "tiny.bin", Size: 3000, Content: "rand"}, {Rel: "second.bin", Size: 90000, Content: "rand"}}
+	add("down-tiny-p4", vfCfg{Dir: "down"}, []string{"tiny.bin", "second.bin"}, tiny)
+	add("up-tiny-p3-bin", vfCfg{Dir: "up", Protocol: 3, Binary: true}, []string{"tiny.bin", "second.bin"}, tiny)
 	// a file far larger than the pipeline's read-ahead, so that a change of length lands mid-read
 	bigdir := []vfFileSpec{{Rel: "d", Dir: true}, {Rel: "d/a.bin", Size: 20000, Content: "rand"}, {Rel: "d/zbig.bin", Size: 12 << 20, Content: "zeros"}, {Rel: "d/zz.txt", Size: 100, Content: "text"}}
 	add("big-down-archive", vfCfg{Dir: "down", Directory: true}, []string{"d"}, bigdir)
@@ -88,6 +92,9 @@ func TestVF_C11(t *testing.T) {
 				id = fmt.Sprintf("y-%s-%s-h%d", strings.ReplaceAll(yield, ":", "_"), sc.Name, k)
 			}
 			fault := faults[(k+si)%len(faults)]
+			if strings.Contains(sc.Name, "-tiny-") && k%2 == 0 {
+				fault = "dest-full" // the only block of the first file is also its last
+			}
 			if strings.HasPrefix(sc.Name, "big-") {
 				if k >= vfPick(8, 60) {
 					continue
